@@ -340,6 +340,66 @@ Proof.
 Qed.
 End FineTheorems.
 
+(* ---- no deadlock at instruction granularity: the only instruction that can fail to make progress is a
+        lock().await on a held lock; while some task is unfinished, some unfinished task is not in that situation ---- *)
+Definition blocked (s : pstate) (t : task) : bool :=
+  match ppcs s t with
+  | ((_, k) :: _, ILockAwait :: _, _) => match lock (psh s) k with Some _ => true | None => false end
+  | _ => false
+  end.
+
+Lemma pmstep_range : forall P c n t s,
+  (forall u, n <= u -> fst (fst (ppcs s u)) = []) -> (forall u, n <= u -> fst (fst (ppcs (pmstep P c t s) u)) = []).
+Proof.
+  intros P c n t s H u Hu. unfold pmstep.
+  destruct (ppcs s t) as [[rem kont] l] eqn:E. destruct rem as [|[e k] rest]; [apply H; exact Hu|].
+  assert (u <> t). { intro X. subst u. specialize (H t Hu). rewrite E in H. discriminate. }
+  destruct (match kont with [] => (p_entry P e, l0) | _ :: _ => (kont, l) end) as [[|i more] li]; cbn [ppcs].
+  - rewrite upd_other by assumption. apply H; exact Hu.
+  - destruct (istep P c t k i more li (psh s)) as [[|x y] ? ?| ? ? ?|]; cbn [ppcs];
+      rewrite upd_other by assumption; apply H; exact Hu.
+Qed.
+
+Lemma pmrun_range : forall P pc ms u, length (ptasks pc) <= u -> fst (fst (ppcs (pmrun P pc ms) u)) = [].
+Proof.
+  intros P pc ms. unfold pmrun.
+  assert (H0 : forall u, length (ptasks pc) <= u -> fst (fst (ppcs (pinit pc) u)) = []).
+  { intros u Hu. cbn. apply nth_overflow. exact Hu. }
+  revert H0. generalize (pinit pc). induction ms as [|t r IH]; intros s H; cbn; [exact H|].
+  apply IH. apply pmstep_range. exact H.
+Qed.
+
+Lemma forallb_false_ex : forall (f : nat -> bool) l, forallb f l = false -> exists x, In x l /\ f x = false.
+Proof.
+  induction l as [|a r IH]; cbn; intro H; [discriminate|].
+  destruct (f a) eqn:Fa.
+  - destruct (IH H) as (x & A & B). exists x. auto.
+  - exists a. auto.
+Qed.
+
+Lemma pm_no_deadlock : forall (pc : pconfig) (ms : list task),
+  pall_done pc (pmrun canon pc ms) = false ->
+  exists t, t < length (ptasks pc) /\ ptask_done (pmrun canon pc ms) t = false /\ blocked (pmrun canon pc ms) t = false.
+Proof.
+  intros pc ms Hd. set (s := pmrun canon pc ms) in *.
+  pose proof (pmrun_gi pc ms) as G. fold s in G.
+  unfold pall_done in Hd.
+  destruct (forallb_false_ex _ _ Hd) as (t0 & Hin & Hnd).
+  assert (Hlt : t0 < length (ptasks pc)) by (apply in_seq in Hin; lia).
+  destruct (blocked s t0) eqn:Hb; [|exists t0; auto].
+  unfold blocked in Hb. destruct (ppcs s t0) as [[rem kont] l] eqn:E.
+  destruct rem as [|[e k] rest]; [discriminate|]. destruct kont as [|i more]; [discriminate|].
+  destruct i; try discriminate. destruct (lock (psh s) k) as [u|] eqn:Hl; [|discriminate].
+  apply (gi_lock _ _ G) in Hl. destruct Hl as [U1 U2].
+  exists u. split; [|split].
+  - destruct (Nat.lt_ge_cases u (length (ptasks pc))) as [A|A]; [exact A|].
+    pose proof (pmrun_range canon pc ms u A) as R. fold s in R. unfold tkey in U1. rewrite R in U1. discriminate.
+  - unfold ptask_done. unfold tkey in U1. destruct (fst (fst (ppcs s u))); [discriminate|reflexivity].
+  - unfold blocked. destruct (ppcs s u) as [[rem' kont'] l']. unfold tcls in U2. cbn in U2.
+    destruct rem' as [|[e' k'] r']; [reflexivity|]. destruct kont' as [|i' m']; [reflexivity|].
+    destruct i'; try reflexivity. cbn in U2. discriminate.
+Qed.
+
 (* ---- for the program regenerated from the source ---- *)
 From RM Require Import C12.ProgSource Gen.C12Program.
 
@@ -360,6 +420,12 @@ Lemma src_pm_value : forall (pc : pconfig) (ms : list task) (k : key) (o : outco
   value (psh (pmrun src_program pc ms)) k = Some o ->
   o = outc (pbase pc) k /\ psupplier_calls (pmrun src_program pc ms) k = 1.
 Proof. rewrite src_is_canon. exact pm_value. Qed.
+
+Lemma src_pm_no_deadlock : forall (pc : pconfig) (ms : list task),
+  pall_done pc (pmrun src_program pc ms) = false ->
+  exists t, t < length (ptasks pc) /\ ptask_done (pmrun src_program pc ms) t = false /\
+            blocked (pmrun src_program pc ms) t = false.
+Proof. rewrite src_is_canon. exact pm_no_deadlock. Qed.
 
 Lemma src_pm_never_stuck : forall (pc : pconfig) (ms : list task) (t : task),
   snd (fst (ppcs (pmrun src_program pc ms) t)) <> [IAbort].
